@@ -166,9 +166,13 @@ def serialized(
                     return error_handler2(error, self, alias2)
 
         assert not isinstance(error_handler2, UndefinedType)
-        _serialized_methods[owner][alias2] = SerializedMethod(
-            func, alias2, conversion, error_handler2, order, schema
-        )
+        # reassign (instead of mutating in place) in order to reset the cache
+        _serialized_methods[owner] = {
+            **_serialized_methods[owner],
+            alias2: SerializedMethod(
+                func, alias2, conversion, error_handler2, order, schema
+            ),
+        }
 
     if isinstance(__arg, str):
         alias = __arg
